@@ -37,6 +37,7 @@ from ..refmodel import volavg
 FN_1D = 'mc.checks.c15_volavg:case_pairs1d'
 FN_3D = 'mc.checks.c15_volavg:case_pairs3d'
 FN_MODEL = 'mc.checks.c15_volavg:case_model'
+FN_SIM = 'mc.checks.c15_volavg:case_simgrad'
 
 UNIT = (50.0, 0.7, 1900.0)
 ORIGIN = (-10.0, 3.3, -5000.0)
@@ -492,6 +493,107 @@ def case_model(c):
 
 
 # ------------------------------------------------------------------------ run
+
+# ------------------------------------------------- gradient back on the model
+SIM_GRIDS = {
+    # computational grids (widths per direction, origin) for a model grid of
+    # 4x4x4 cells: same number of cells but other widths / origin, finer,
+    # coarser and non-nested, overhanging
+    'same-shape': ([[100., 115, 95, 120], [110., 126.5, 104.5, 132],
+                    [105., 120.75, 99.75, 126]], (-215., -215., -400.)),
+    'finer': ([[60., 55, 50, 50, 55, 60, 70, 80], [63., 58, 52, 52, 58, 63,
+              73, 84], [57., 52, 48, 48, 52, 57, 66, 76]],
+              (-240., -250., -410.)),
+    'coarser': ([[150., 140, 160], [170., 150, 170], [140., 130, 140]],
+                (-225., -240., -395.)),
+    'equal-nodes': ([[120., 90, 100, 130], [132., 99, 110, 143],
+                     [108., 81, 90, 117]], (-220., -230., -390.)),
+}
+
+
+def case_simgrad(c):
+    """The gradient of a Simulation whose computational grid differs from
+    the model grid equals F^T times the gradient obtained on the
+    computational grid itself (Conductivity mapping: no chain-rule factor),
+    F = reference volume-averaging matrix comp <- model; summed over all
+    source-frequency pairs."""
+    import emg3d
+    from ..refmodel import adjoint
+    h = [np.array([120., 90, 100, 130])*s_ for s_ in (1.0, 1.1, 0.9)]
+    grid = emg3d.TensorMesh(h, origin=(-220., -230., -390.))
+    model = zoo.model(grid, {'case': c['case'], 'prof': 'rnd',
+                             'mapping': 'Conductivity'})
+    hc, oc = SIM_GRIDS[c['grid']]
+    gc = emg3d.TensorMesh([np.array(x) for x in hc], origin=oc)
+    srcs = [emg3d.TxElectricDipole((-60., 20., -200., 30., 10.), length=15.,
+                                   strength=1.5-0.5j),
+            emg3d.TxElectricPoint((-10., -20., -185., -20., 70.))][:c['nsrc']]
+    recs = [emg3d.RxElectricPoint((60., -40., -150., 20., 5.)),
+            emg3d.RxMagneticPoint((40., 50., -180., -40., 10.))]
+    freqs = [1.0, 2.0][:c['nfreq']]
+    survey = emg3d.Survey(
+        sources=emg3d.surveys.txrx_lists_to_dict(srcs),
+        receivers=emg3d.surveys.txrx_lists_to_dict(recs), frequencies=freqs,
+        noise_floor=1e-12, relative_error=0.05)
+    r = zoo.rng('c15', 'obs')
+    d = (r.standard_normal(survey.shape) +
+         1j*r.standard_normal(survey.shape))*1e-10
+    survey.data['observed'] = (survey.data.observed.dims, d)
+    kw = dict(max_workers=1, receiver_interpolation='linear', tqdm_opts=False,
+              verb=-1)
+    viol = []
+    with warnings.catch_warnings():
+        warnings.simplefilter('ignore')
+        with adjoint.exact_mode():
+            sim1 = emg3d.Simulation(survey, model, gridding='input',
+                                    gridding_opts=gc, **kw)
+            g1 = np.array(sim1.gradient)
+            mc = sim1.get_model(*sim1._srcfreq[0])
+            sim2 = emg3d.Simulation(survey.copy(), mc, gridding='same', **kw)
+            g2 = np.array(sim2.gradient)
+    nb = {'isotropic': 1, 'VTI': 2, 'HTI': 2, 'triaxial': 3}[c['case']]
+    F = volavg.matrix_3d([grid.nodes_x, grid.nodes_y, grid.nodes_z],
+                         [gc.nodes_x, gc.nodes_y, gc.nodes_z])
+    g1 = g1.reshape((nb, -1), order='F') if nb > 1 else g1.reshape(
+        (1, -1), order='F')
+    g2 = g2.reshape((nb, -1), order='F') if nb > 1 else g2.reshape(
+        (1, -1), order='F')
+    # misfits agree (same fields, same data) - otherwise the comparison
+    # below would be meaningless
+    m1, m2 = float(sim1.misfit), float(sim2.misfit)
+    if not abs(m1 - m2) <= 1e-9*abs(m2):
+        viol.append({'cls': 'simulation-on-computational-grid-differs',
+                     'what': f'{c}: misfit {m1!r} on the model grid vs '
+                             f'{m2!r} on the computational grid itself'})
+    want = g2 @ F
+    scale = np.abs(want).max()
+    err = np.abs(g1 - want).max()/scale
+    if not err <= 1e-9:
+        viol.append({'cls': 'gradient-not-transposed-volume-average',
+                     'what': f'{c}: gradient on the model grid differs from '
+                             'F^T x (gradient on the computational grid): '
+                             f'rel. {err:.2e}',
+                     'observed': g1, 'expected': want})
+    return {'viol': viol, 'compared': 2, 'transitions': 2,
+            'nontrivial': bool(scale > 0),
+            'outcome': (c['grid'], c['case'], err < 1e-12)}
+
+
+def cases_simgrad(tier):
+    out = []
+    for gname in SIM_GRIDS:
+        for case_ in ('isotropic', 'triaxial', 'VTI', 'HTI'):
+            if tier == 'quick' and case_ in ('VTI', 'HTI') and \
+                    gname != 'same-shape':
+                continue
+            for nsrc, nfreq in ((2, 1), (1, 2), (1, 1)):
+                if tier == 'quick' and (nsrc, nfreq) == (1, 1):
+                    continue
+                out.append({'grid': gname, 'case': case_, 'nsrc': nsrc,
+                            'nfreq': nfreq})
+    return out
+
+
 def prepare(ctx):
     """Import emg3d / compile the numba kernel once, in the parent."""
     import emg3d  # noqa
@@ -540,6 +642,15 @@ def run(ctx):
                     rule='3-D grid pairs x 4 cases x mu_r x eps_r; per case '
                          'all six mappings through Model.interpolate_to_grid',
                     time_cap=cap)
+    if ctx.wants('simulation-gradient'):
+        ctx.explore('simulation-gradient', FN_SIM, cases_simgrad(ctx.tier),
+                    engine='E1',
+                    rule='4 computational grids (same shape / finer / coarser '
+                         '/ equal nodes) x anisotropy cases x (2 sources | 2 '
+                         'frequencies | one pair): gradient of the real '
+                         'Simulation (exact-solve mode) on the model grid = '
+                         'F_ref^T x gradient on the computational grid',
+                    time_cap=cap, chunksize=1)
     if ctx.wants('pairs1d'):
         ctx.explore('pairs1d', FN_1D, cases_pairs1d(ctx.tier), engine='E1',
                     rule='all ordered pairs of subsets (>= 2 points) of the '
